@@ -150,7 +150,7 @@ class Model:
         while seen < 8:
             seen += 1
             if isinstance(e, ast.Name):
-                if e.id == self.kw and len(self.binds.get(e.id, [])) == 1:
+                if e.id == self.kw and len([b for b in self.binds.get(e.id, []) if not self._merge_update(b)]) == 1:
                     return True
                 v = self.single_value(e.id)
                 if v is None:
@@ -171,6 +171,11 @@ class Model:
                 continue
             return False
         return False
+
+    @staticmethod
+    def _merge_update(b: "Binding") -> bool:
+        """`kwargs |= {...}` updates the dict in place: not a re-binding"""
+        return b.kind == "aug" and isinstance(b.stmt, ast.AugAssign) and isinstance(b.stmt.op, ast.BitOr)
 
     def filtered_options(self, e: ast.expr) -> list[str] | None:
         """`{k: v for k, v in <options>.items() if k not in ('a', 'b')}`  ->  ['a', 'b']"""
